@@ -27,6 +27,11 @@ package pod_status
 //@ define inBound(s int) bool = bitand(boundStatuses, s) != 0
 //@ define inAllocated(s int) bool = bitand(allocatedStatuses, s) != 0
 
+// Named copy of inActiveAllocated (definitional axiom of a new symbol, conservative): keeps the mask arithmetic out of
+// quantified invariants over queue contents (podgroup_info.getTasksToEvictPriorityQueue), where it made one obligation slow.
+//@ declare aaClass(s int) bool
+//@ axiom forall s int :: aaClass(s) == (bitand(activeAllocatedStatuses, s) != 0)
+
 //@ func IsAliveStatus
 //@   props C14 C03 C06
 //@   pure
@@ -46,6 +51,7 @@ package pod_status
 //@   pure
 //@   ensures isStatus(statusInput) ==> result == stActiveAllocated(statusInput)
 //@   ensures [det] result == (bitand(activeAllocatedStatuses, statusInput) != 0)   // for callers: a deterministic function of the argument, also outside the twelve constants
+//@   ensures [named] result == aaClass(statusInput)   // exports the named class to callers (the axiom itself is local to this package)
 //@ end
 
 //@ func IsPodBound
